@@ -31,16 +31,20 @@ def regressor_for(route):
         return None
     if route == "ridge":
         return Ridge(alpha=0.5, fit_intercept=False, tol=1e-12)
+    if route == "ridgeS":
+        return Ridge(alpha=25.0, fit_intercept=False, tol=1e-12)        # strongly regularised: Yhat clearly differs from the LS fit
     if route == "lr":
         return LinearRegression(fit_intercept=False)
     raise ValueError(route)
 
 
-def fit_record(Xi, Yi, a, k, space, solver, route, y1d=False, Xn=None, pre=None, extras=True, seed=0):
+def fit_record(Xi, Yi, a, k, space, solver, route, y1d=False, Xn=None, pre=None, extras=True, seed=0, xpert=None):
     """One PCovR fit -> record.  Xi, Yi integer (units 1/4); mixing a/8.
     route: default | ridge | lr | pre (precomputed Yhat given in `pre` = (Yhat, W or None))"""
     from skmatter.decomposition import PCovR
     X = Xi / 4.0
+    if xpert is not None:
+        X = X + xpert          # exact dyadic perturbation far below the fixed-point resolution (ill-conditioned, not rank-deficient)
     Y = Yi / 4.0
     Yarg = Y[:, 0] if y1d else Y
     kw = dict(mixing=a / 8.0, n_components=k, space=space, svd_solver=solver, tol=1e-12, random_state=seed)
